@@ -751,7 +751,6 @@ pub fn capacity_cases(o: &mut O, tier: &str) {
             }
         }
         observe_capacity(o, 44, &"k".repeat(65536));
-        observe_capacity(o, 2, &"k".repeat(65536));
     }
 }
 
@@ -852,6 +851,34 @@ pub fn c16(o: &mut O, tier: &str, rng: &mut Rng) {
         both(o, &format!("20150830T123600+{:02}00", v), "c16,sweep_offset_hour");
         both(o, &format!("20150830T123600-{:02}:30", v), "c16,sweep_offset_hour");
         both(o, &format!("20150830T123600+05{:02}", v), "c16,sweep_offset_minute");
+    }
+    // time-of-day fields together: the last second of a minute / hour / day and the "leap second" spellings,
+    // also on the days a leap second was inserted; no second above 59 is a time of day here
+    for date in ["20150830", "20150630", "20151231", "20161231", "20160229", "19981231"] {
+        for h in [0u32, 12, 23, 24] {
+            for mi in [0u32, 30, 59, 60] {
+                for sec in [0u32, 59, 60, 61] {
+                    let basic = format!("{}T{:02}{:02}{:02}Z", date, h, mi, sec);
+                    let ext = format!("{}-{}-{}T{:02}:{:02}:{:02}+00:00", &date[..4], &date[4..6], &date[6..], h, mi, sec);
+                    both(o, &basic, "c16,time_of_day");
+                    if date != "20150830" || sec >= 59 {
+                        both(o, &ext, "c16,time_of_day");
+                    }
+                    if sec == 60 {
+                        both(o, &format!("{}T{:02}{:02}{:02}.5Z", date, h, mi, sec), "c16,time_of_day");
+                        both(o, &format!("{}T{:02}{:02}{:02}-0001", date, h, mi, sec), "c16,time_of_day");
+                    }
+                }
+            }
+        }
+    }
+    // fractions of every length up to 40 digits (truncated to nanoseconds, never rounded, never overflowing)
+    for len in [13usize, 15, 18, 19, 20, 21, 25, 30, 39, 40] {
+        for dgt in ['0', '1', '9'] {
+            let digits: String = std::iter::repeat(dgt).take(len).collect();
+            both(o, &format!("20150830T123600.{}Z", digits), "c16,fraction_long");
+            both(o, &format!("2015-12-31T23:59:59,{}-00:01", digits), "c16,fraction_long");
+        }
     }
     // every day-of-month for every month, leap and non-leap, century rules
     for y in [1900u32, 2000, 2015, 2016, 2100, 0, 4, 9999] {
